@@ -23,6 +23,7 @@ import (
 
 	"github.com/sirupsen/logrus"
 
+	"hop.computer/hop/transport"
 	"hop.computer/hop/tubes"
 	. "hopverif/hvlib"
 )
@@ -51,16 +52,31 @@ type ScriptConn struct {
 	out    [][]byte
 	closed chan struct{}
 	once   sync.Once
+	// a message that did not fit the reader's buffer (read by the one receiver goroutine only)
+	pending []byte
 }
 
 func NewScriptConn() *ScriptConn {
 	return &ScriptConn{in: make(chan []byte), closed: make(chan struct{})}
 }
 
+// ReadMsg behaves like transport.Handle.ReadMsg: a message that does not fit the buffer is kept for the next
+// call and ErrBufOverflow is returned (the muxer's buffer must hold the largest message a peer can send).
 func (c *ScriptConn) ReadMsg(b []byte) (int, error) {
 	c.reads.Add(1)
+	if m := c.pending; m != nil {
+		if len(b) < len(m) {
+			return 0, transport.ErrBufOverflow
+		}
+		c.pending = nil
+		return copy(b, m), nil
+	}
 	select {
 	case m := <-c.in:
+		if len(b) < len(m) {
+			c.pending = m
+			return 0, transport.ErrBufOverflow
+		}
 		return copy(b, m), nil
 	case <-c.closed:
 		return 0, net.ErrClosed
